@@ -18,6 +18,7 @@ import DfolsVerif.Gen.EvalLoopFns
 import DfolsVerif.Proofs.EvalLoopAcc
 import DfolsVerif.Proofs.RestartGuards
 import DfolsVerif.Proofs.SolveMainCalls
+import DfolsVerif.Proofs.TrySites
 
 namespace Dfols
 namespace C02
@@ -215,6 +216,18 @@ theorem C02_src_counters_threaded :
       ((r.drop 5).take 2 = ["nf", "nx"] ∨ (r.drop 5).take 2 = ["control.nf", "control.nx"]) ∧ (r.drop 8).take 1 = ["exit_info"]) ∧
     (∀ c ∈ Gen.solveMainCalls, (c.1.drop 10).take 3 = ["nruns", "nf", "nx"]) :=
   SolveMainCalls.counters_threaded
+
+/-- **every call of the residual function is a counted one** (call graph regenerated from the AST of the whole package): `objfun` is
+    called by `eval_least_squares_with_regularisation` only, which is called by `Controller.evaluate_objective` and by the x0 block of
+    `solve_main` only — the two loops of `C02_evaluate_objective` / `C02_x0_block`; `evaluate_objective` itself is called from the main
+    loop and from the six Controller methods whose control flow is translated (`Gen/MainLoop.lean`, `Gen/CtrlSkel.lean`) -/
+theorem C02_src_objfun_choke_points :
+    Gen.objfunCallers = ["eval_least_squares_with_regularisation"] ∧
+    (Gen.callEdges.filter (fun e => e.2 == "eval_least_squares_with_regularisation")).map (·.1) = ["evaluate_objective", "solve_main"] ∧
+    (Gen.callEdges.filter (fun e => e.2 == "evaluate_objective")).map (·.1) =
+      ["add_new_direction_while_growing", "geometry_step", "initialise_coordinate_directions", "initialise_random_directions",
+       "move_furthest_points_momentum", "soft_restart", "solve_main"] :=
+  TrySites.choke_points
 
 end C02
 end Dfols
